@@ -6,7 +6,7 @@
      spec_ok  : the decidable specification, evaluated on the IMPLEMENTATION's answer
    Nothing here is proved; it is extracted to OCaml and run by the harness. *)
 From Coq Require Import List Arith NArith Bool.
-From MR Require Import Lib.Bytes Lib.Val Model.Index Model.Dag Model.IndexGroups Model.Git Model.Tracking Model.CfgFile Model.Sched Model.Plan.
+From MR Require Import Lib.Bytes Lib.Val Model.Index Model.Dag Model.IndexGroups Model.Git Model.Tracking Model.CfgFile Model.Sched Model.Plan Model.RunPaths.
 From MR Require Model.Lock Model.Reader Model.Filter.
 Import ListNotations.
 Open Scope nat_scope.
@@ -385,6 +385,9 @@ Definition check_crash_var (v : val) : val :=
   end.
 
 
+(* the command-name check of get_all_commands: v = the name *)
+Definition check_cmdname (v : val) : val := let c := dStr (dNth v 0) in VL [eB (name_accepted c); eB (single_component c)].
+
 (* ---------- C17 / C18: configuration file loading ---------- *)
 (* files are content ids (distinct bytes, distinct ids; sha = identity on ids); the harness supplies, for the
    file being loaded, whether it parses as a Config, whether it has a `source` and which checksum it embeds *)
@@ -541,6 +544,7 @@ Definition dispatch (name : str) (v : val) : val :=
   else if str_eqb name (bs "tracking") then check_tracking v
   else if str_eqb name (bs "crash") then check_crash v
   else if str_eqb name (bs "crash_var") then check_crash_var v
+  else if str_eqb name (bs "cmdname") then check_cmdname v
   else if str_eqb name (bs "cfgfile") then check_cfgfile v
   else if str_eqb name (bs "sched") then check_sched v
   else if str_eqb name (bs "plan") then check_plan v
